@@ -16,6 +16,12 @@ S: independent of the model: the returned cost against the optimum obtained by p
    Abandoned generators (routine "ptake"): `pareto_optimize` consumed for k solutions and closed;
    the solutions must be distinct points of the enumerated front and the solver restored (K: the
    model's `paretoPrefix`).
+   Script route (routine "script", S only): generated OMT sessions (declare-fun / assert / minimize /
+   maximize / minmax / maxmin with :id and :signed / set-option :opt.priority / push / pop / check-sat /
+   get-objectives, >= 2 check-sat per session) are parsed by SmtLibParser and run by
+   SmtLibScript.evaluate on the enumerating optimizers; every check-sat and get-objectives answer is
+   compared with plain enumeration over the assertions and goals live at that point, and the solver's
+   final stack with the script's.  (assert-soft is not understood by InterpreterOMT and is left out.)
    Goal *reuse* (routine "reuse", S only -- the Lean model treats a goal as an immutable value):
    one MaxSMTGoal object is optimised, extended with further soft clauses (weights given as
    Python int / Fraction / float / FNode) and optimised again on the same solver; every result is
@@ -140,7 +146,7 @@ class Prepared(object):
                 self.decls.append((s, (v[2], v[3])))
             self.syms[name] = s
         self.asserts = [build(a, self.syms, mgr) for a in case["asserts"]]
-        cls = brute.MIXINS[case["mixin"]]
+        cls = (brute.SCRIPT_MIXINS if case.get("routine") == "script" else brute.MIXINS)[case["mixin"]]
         self.solver = cls(env, QF_AUFBVLIRA)
         for s, dom in self.decls:
             self.solver.declare(s, dom)
@@ -745,6 +751,224 @@ def run_reuse_case(case):
     return None, py_ans, viol, info
 
 
+# ---------------------------------------------------------------------------------------------
+# the script route: SmtLibParser -> SmtLibScript.evaluate(optimizer) (InterpreterOMT)
+# ---------------------------------------------------------------------------------------------
+SMT_OPS = {"and": "and", "or": "or", "not": "not", "implies": "=>", "iff": "=", "ite": "ite", "eq": "=",
+           "lt": "<", "le": "<=", "gt": ">", "ge": ">=", "plus": "+", "minus": "-", "times": "*",
+           "bvult": "bvult", "bvule": "bvule", "bvugt": "bvugt", "bvuge": "bvuge", "bvslt": "bvslt",
+           "bvsle": "bvsle", "bvsgt": "bvsgt", "bvsge": "bvsge", "bvadd": "bvadd", "bvsub": "bvsub",
+           "bvmul": "bvmul", "bvand": "bvand", "bvor": "bvor", "bvxor": "bvxor", "bvnot": "bvnot",
+           "bvneg": "bvneg", "xor": "xor"}
+
+
+def smt_text(e, names):
+    if isinstance(e, str):
+        return names[e]
+    h = e[0]
+    if h == "int":
+        return str(e[1]) if e[1] >= 0 else "(- %d)" % -e[1]
+    if h == "bv":
+        return "(_ bv%d %d)" % (e[1], e[2])
+    if h == "bool":
+        return "true" if e[1] else "false"
+    return "(%s %s)" % (SMT_OPS[h], " ".join(smt_text(a, names) for a in e[1:]))
+
+
+def script_text(case, prep):
+    names = {k: v.symbol_name() for k, v in prep.syms.items()}
+    out = []
+    for v in case["vars"]:
+        sort = {"bool": "Bool", "int": "Int"}.get(v[1]) or "(_ BitVec %d)" % v[2]
+        out.append("(declare-fun %s () %s)" % (names[v[0]], sort))
+    for c in case["script"]:
+        k = c[0]
+        if k == "priority":
+            out.append("(set-option :opt.priority %s)" % c[1])
+        elif k == "assert":
+            out.append("(assert %s)" % smt_text(c[1], names))
+        elif k == "goal":
+            g = c[1]
+            cmd = {"min": "minimize", "max": "maximize", "minmax": "minmax", "maxmin": "maxmin"}[g["kind"]]
+            opts = (" :id %s" % g["id"] if g.get("id") else "") + (" :signed" if g.get("signed") else "")
+            out.append("(%s %s%s)" % (cmd, " ".join(smt_text(t, names) for t in g["terms"]), opts))
+        elif k in ("push", "pop"):
+            out.append("(%s %d)" % (k, c[1]))
+        elif k == "check":
+            out.append("(check-sat)")
+        elif k == "get":
+            out.append("(get-objectives)")
+    return "\n".join(out) + "\n"
+
+
+def run_script_case(case):
+    """An OMT script run through SmtLibParser + SmtLibScript.evaluate(optimizer); every check-sat /
+    get-objectives answer is compared with plain enumeration over the assertions and goals that are
+    live at that point.  S only (the Lean model has no script interpreter)."""
+    from io import StringIO
+    from pysmt.smtlib.parser import SmtLibParser
+    prep = Prepared(dict(case, goals=[], asserts=[]))
+    solver = prep.solver
+    mgr = prep.mgr
+    ev = solver.evaluator()
+    mixin = case["mixin"]
+    viol = []
+    rng = random.Random(case.get("seed", 0))
+    solver.chooser = (lambda rows: rows[rng.randrange(len(rows))]) if case.get("chooser") != "first" else None
+    solver.max_solves = 400 * (ev.n + 2)
+    text = script_text(case, prep)
+    sig0 = {"routine": "script", "mixin": mixin, "strategy": "linear"}
+
+    def report(oracle, what, **kw):
+        sg = dict(sig0, oracle=oracle)
+        sg.update({k: str(v) for k, v in kw.items()})
+        viol.append((sg, what))
+    try:
+        script = SmtLibParser(get_env()).get_script(StringIO(text))
+        log = script.evaluate(solver)
+    except Exception as e:      # noqa
+        report("exception", "script route raised %s: %s" % (type(e).__name__, str(e)[:160]), exc=type(e).__name__,
+               objective="supported", objective_sort="-")
+        return None, {"result": "err", "trace": []}, viol, {"feasible": True, "solves": solver.n_solves,
+                                                            "skip_k": True, "prep": prep}
+    answers = [(n, r) for n, r in log if n in ("check-sat", "get-objectives")]
+    # --- simulation with plain enumeration
+    live, marks, goals = [], [], []          # assertion FNodes; push marks; goal specs (dir, table, signed, width)
+    priority = "single-obj"
+    expected = []                            # value vectors expected from get-objectives (list of lists)
+    ai = 0
+    n_checks = 0
+    for c in case["script"]:
+        k = c[0]
+        if k == "priority":
+            priority = c[1]
+        elif k == "assert":
+            live.append(build(c[1], prep.syms, mgr))
+        elif k == "push":
+            marks.extend([len(live)] * c[1])
+        elif k == "pop":
+            for _ in range(c[1]):
+                live = live[:marks.pop()]
+        elif k == "goal":
+            g = c[1]
+            terms = [build(t, prep.syms, mgr) for t in g["terms"]]
+            ty = terms[0].get_type()
+            signed = bool(g.get("signed")) and ty.is_bv_type()
+            tabs = []
+            for t in terms:
+                tt = ev.table(t)
+                if signed:
+                    tt = [sgn(v, ty.width) for v in tt]
+                tabs.append(tt)
+            if g["kind"] in ("min", "max"):
+                tab = tabs[0]
+            elif g["kind"] == "minmax":
+                tab = [max(r) for r in zip(*tabs)]
+            else:
+                tab = [min(r) for r in zip(*tabs)]
+            goals.append(("min" if g["kind"] in ("min", "minmax") else "max", tab, signed))
+        elif k == "check":
+            n_checks += 1
+            rows = solver.sat_rows(live)
+            name, got = answers[ai]
+            ai += 1
+            if bool(got) != bool(rows):
+                report("script-check", "check-sat #%d answered %r, the live assertions are %ssatisfiable (priority %s)"
+                       % (n_checks, got, "" if rows else "un", priority), priority=priority)
+            if goals:
+                if not rows:
+                    expected = []
+                elif priority == "lex":
+                    rr, out = list(rows), []
+                    for d, tab, _ in goals:
+                        b = best(d, [tab[r] for r in rr])
+                        out.append(b)
+                        rr = [r for r in rr if tab[r] == b]
+                    expected = [out]
+                elif priority == "pareto":
+                    vecs = set(tuple(tab[r] for _, tab, _ in goals) for r in rows)
+
+                    def dom(a, b):
+                        return a != b and all((a[i] <= b[i]) if goals[i][0] == "min" else (a[i] >= b[i])
+                                              for i in range(len(goals)))
+                    expected = ("pareto", set(v for v in vecs if not any(dom(w, v) for w in vecs)), len(goals))
+                else:
+                    expected = [[best(d, [tab[r] for r in rows]) for d, tab, _ in goals]]
+                exp_goals = list(goals)
+        elif k == "get":
+            name, got = answers[ai]
+            ai += 1
+            vals = []
+            for (_, v), gspec in zip(got, itertools.cycle(exp_goals if goals else [None])):
+                if v.is_bv_constant():
+                    vals.append(v.bv_signed_value() if (gspec and gspec[2]) else v.bv_unsigned_value())
+                else:
+                    vals.append(int(v.constant_value()))
+            if isinstance(expected, tuple):
+                _, front, ng = expected
+                chunks = [tuple(vals[i:i + ng]) for i in range(0, len(vals), ng)]
+                ok = len(vals) % ng == 0 and set(chunks) == front and len(chunks) == len(front)
+                expd = sorted(front)
+            else:
+                flat = [x for vec in expected for x in vec]
+                ok = vals == flat
+                expd = flat
+            if not ok:
+                report("script-objectives", "get-objectives after check-sat #%d (priority %s, %d goals) reported %s, "
+                       "enumeration over the live assertions gives %s" % (n_checks, priority, len(goals), vals, expd),
+                       priority=priority, check=("first" if n_checks == 1 else "later"))
+    # --- the solver's stack must be the script's stack
+    if list(solver.assertions) != live or solver.level_count() != len(marks):
+        report("script-stack", "after the script the solver holds %d assertions / %d levels, the script's stack has %d / %d"
+               % (len(solver.assertions), solver.level_count(), len(live), len(marks)))
+    info = {"feasible": True, "solves": max(2, solver.n_solves), "skip_k": True, "prep": prep}
+    return None, {"result": "script", "trace": [text.replace("\n", " ")]}, viol, info
+
+
+def rand_script(rng, fam):
+    """commands of an incremental OMT session: >= 2 check-sat with the assertions changing in between"""
+    if fam == "int":
+        vars_ = [["x", "int", -3, 4], ["y", "int", -2, 4], ["p", "bool"]]
+        pal = [c for c in INT_PALETTE if c != ["ge", ["plus", "x", "y"], ["int", 20]]] + [
+            ["ge", "x", ["int", 2]], ["le", "y", ["int", 0]], ["ge", ["plus", "x", "y"], ["int", 3]]]
+        pool = [g for g in INT_GOALS if not any("ite" in json.dumps(t) for t in g["terms"])]
+        header = [["assert", ["and", ["le", ["int", -3], "x"], ["le", "x", ["int", 4]]]],
+                  ["assert", ["and", ["le", ["int", -2], "y"], ["le", "y", ["int", 4]]]]]
+    else:
+        w = rng.choice([2, 3])
+        vars_ = [["a", "bv", w], ["b", "bv", w]]
+        pal = [c for c in bv_palette(w)[1:-1]]
+        pool = bv_goals(w)
+        header = []
+    cmds = list(header)
+    cmds.append(["priority", rng.choice(["single-obj", "lex", "box", "pareto"])])
+
+    def goal():
+        g = dict(rng.choice(pool))
+        if rng.random() < 0.3:
+            g["id"] = "g%d" % rng.randint(0, 9)
+        return ["goal", g]
+    for _ in range(rng.randint(1, 3)):
+        cmds.append(goal())
+    depth = 0
+    for rnd in range(rng.randint(2, 3)):
+        if rng.random() < 0.5:
+            cmds.append(["push", 1])
+            depth += 1
+        for _ in range(rng.randint(0 if rnd == 0 else 1, 2)):
+            cmds.append(["assert", rng.choice(pal)])
+        cmds.append(["check"])
+        cmds.append(["get"])
+        if depth and rng.random() < 0.6:
+            cmds.append(["pop", 1])
+            depth -= 1
+        if rng.random() < 0.2:
+            cmds.append(goal())
+        if rng.random() < 0.2:
+            cmds.append(["priority", rng.choice(["single-obj", "lex", "box", "pareto"])])
+    return vars_, cmds
+
+
 def compare_answer(prep, py_ans, lean_line):
     """None when equal, else a description of the first difference"""
     parts = lean_line.split(" # ")
@@ -993,6 +1217,14 @@ def _gen_focus(ctx):
                                rng.sample(bv_goals(w), ngoals), "lexi", st, m)
                         c["chooser"] = chooser
                         yield "lexi-wide", c
+    # OMT scripts through SmtLibParser + SmtLibScript.evaluate (InterpreterOMT)
+    for m in mixins:
+        for fam in ("int", "bv"):
+            for _ in range(12 * reps):
+                vars_, cmds = rand_script(rng, fam)
+                c = mk(vars_, [], [], "script", "linear", m)
+                c["script"] = cmds
+                yield "script", c
     # abandoned Pareto generators (F24d)
     for m in mixins:
         for take in (1, 2, 3):
@@ -1148,6 +1380,12 @@ def _gen_sampled(ctx):
             continue
         if fam != "unsupported" and gs and rng.random() < 0.2:
             yield fam, _with_history(rng, mk(vars_, asserts, gs, routine, strat, mixin), asserts, pool)
+            continue
+        if fam in ("int", "bv3") and rng.random() < 0.12:
+            v2, cmds = rand_script(rng, "int" if fam == "int" else "bv")
+            c = mk(v2, [], [], "script", "linear", mixin)
+            c["script"] = cmds
+            yield "script", c
             continue
         if fam == "bool" and rng.random() < 0.35:
             # goal reuse: optimise, add soft clauses to the same goal object, optimise again
@@ -1310,7 +1548,7 @@ def run(ctx):
     n_routine = 0
     for fam, case in gen_cases(ctx):
         # the targeted streams always run completely (a few seconds), whatever the load
-        if fam not in ("lexi-wide", "history") and time.time() > t_end:
+        if fam not in ("lexi-wide", "history", "script") and time.time() > t_end:
             break
         n_routine += 1
         _one(ctx, fam, case, batch, spec_batch)
@@ -1337,6 +1575,8 @@ def _one(ctx, fam, case, batch, spec_batch):
     try:
         if case["routine"] == "reuse":
             req, py_ans, viol, info = run_reuse_case(case)
+        elif case["routine"] == "script":
+            req, py_ans, viol, info = run_script_case(case)
         else:
             req, py_ans, viol, info = run_case(case)
     except Exception as e:      # harness problem, not an implementation outcome
@@ -1401,7 +1641,7 @@ def replay(ctx, rep):
         batch, spec_batch = [], []
         _one(ctx, "replay", case, batch, spec_batch)
         _flush(ctx, batch, [True])
-        req, py_ans, viol, info = (run_reuse_case if case["routine"] == "reuse" else run_case)(case)
+        req, py_ans, viol, info = {"reuse": run_reuse_case, "script": run_script_case}.get(case["routine"], run_case)(case)
         print("replayed case: %s" % json.dumps(case))
         print("implementation: result=%s events=%s" % (py_ans["result"], " ".join(py_ans["trace"])))
         for sig, what in viol:
